@@ -32,9 +32,7 @@ PARTIAL = ('C09_aligned / C09_same_code are proved for every source of the refer
            'The first two exclusions are needed: C09_aligned_paren_prefix_refuted, C09_aligned_if_do_refuted. C09_same_code is about the '
            'lexer MODEL run on the written text of the writer MODEL (both tied to the code by correspondence; the reference dialect of '
            'Spec/LuaLex.v bounds it: no lone CR, no `--[==[`); C09_luafmt_holds / C09_echo_holds give the whole instance predicate holds_C09 '
-           '(parsed to the end, same code view, line-scoped constructs keep their extent) for the model inside that domain. C09_luafmt_idempotent has the parse of the second pass and its '
-           'domain as hypotheses (that the re-lexed tokens parse to a tree inside the domain is not proved: parser invariance under white-space '
-           'changes) and excludes one-line if with else and trailing table separators in both passes. Not proved: '
+           '(parsed to the end, same code view, line-scoped constructs keep their extent) for the model inside that domain. Whole-program idempotence moved to C10_idempotent. Not proved: '
            'completeness of the parser on valid programs (C08), i.e. that every valid program is inside the domain. See notes/C09.md')
 CLAIM = dict(
     text=("Model/AstWriter.v mirrors LuaASTEchoWriter (every handler, _get_text/_get_name/_get_semis/_get_code_for_spaces "
@@ -57,10 +55,8 @@ CLAIM = dict(
           "whole instance predicate holds_C09 that the monitor evaluates on the real output; the line-scope clause in its strongest "
           "form: nl_before - for every code token, is there a newline token between the previous code token and it - is the same "
           "list for the input and the written text, so a one-line if stays on one line and what followed it on a later line stays "
-          "on a later line), [C09_luafmt_idempotent is being re-proved on top of the merged C10_indent_link - parked in rocq/pending/, not part of the claim] (whole-program idempotence for the models: additionally without a one-line if with "
-          "else and without a trailing table separator - the two places where the writer's nesting counter is not the reference depth, "
-          "C10_indent_link - the text luafmt wrote is lexed by the lexer model, and whenever the parser model reads those tokens to "
-          "the end with a tree under the same conditions, luafmt writes exactly the same text again; Proofs/FmtRelexIdem.v), "
+          "on a later line), whole-program idempotence on texts is C10_idempotent (Properties/C10.v, Proofs/FmtRelexIdem.v, built on the "
+          "re-lexing theorem behind C09_same_code), "
           "C09_run_same_comments (every re.sub of _get_code_for_spaces is neutral for a byte-level "
           "white-space / comment automaton). Proof route: Proofs/ParserShape.v re-runs the weakest-precondition proof of the parser with the "
           "postcondition `span` (every leaf was the first significant token at the cursor, node ends are cursors) and `shaped` "
